@@ -53,6 +53,8 @@ type c06Universe struct {
 	nEnum    int
 	nPref    int // per prefix
 	nRand    int
+	nFam     int
+	maxFill  int
 	known    []string
 	seed     int64
 	total    int
@@ -66,7 +68,9 @@ func c06NewUniverse(env vfEnvT) *c06Universe {
 	u.nEnum = c06CountUpTo(n, u.maxTok)
 	u.nPref = c06CountUpTo(n, u.maxTok-1)
 	u.bigFrom = c06CountUpTo(n, 3)
-	u.total = u.nEnum + len(c06Prefixes)*u.nPref + u.nRand + len(u.known)
+	u.maxFill = env.Pick(3, 5)
+	u.nFam = c06FamilyCount(u.maxFill)
+	u.total = u.nEnum + len(c06Prefixes)*u.nPref + u.nRand + u.nFam + len(u.known)
 	return u
 }
 
@@ -83,7 +87,11 @@ func (u *c06Universe) At(idx int) (string, bool) {
 	if idx < u.nRand {
 		return c06RandomString(u.seed, idx), u.thorough
 	}
-	return u.known[idx-u.nRand], false
+	idx -= u.nRand
+	if idx < u.nFam {
+		return c06FamilyAt(idx), u.thorough && idx >= c06FamilyCount(3)
+	}
+	return u.known[idx-u.nFam], false
 }
 
 // c06Bulk: phase 1 = the whole universe on sign_out?rd= for every whitelist configuration; phase 2 = the short strings plus
@@ -99,6 +107,7 @@ func c06Bulk(t testing.TB, env vfEnvT, workers int) *c06BulkResult {
 	res.Stats["universe_enumerated"] = int64(u.nEnum)
 	res.Stats["universe_prefixed"] = int64(len(c06Prefixes) * u.nPref)
 	res.Stats["universe_random"] = int64(u.nRand)
+	res.Stats["universe_slash_filler_slash_family"] = int64(u.nFam)
 	res.Stats["universe_known_bad_seeds"] = int64(len(u.known))
 
 	var ctxs []*c06Ctx
@@ -138,14 +147,26 @@ func c06Bulk(t testing.TB, env vfEnvT, workers int) *c06BulkResult {
 	res.Stats["wall_ms_phase1"] = time.Since(t0).Milliseconds()
 	t0 = time.Now()
 	// ---- carry-over
+	// "short" strings (<=2 / <=3 tokens) and the repository's list go through every channel under every whitelist; a carried
+	// string (kept under some whitelist, or off-origin if echoed) goes through every cheap channel under 2 (quick) / 3
+	// (thorough) of the 7 whitelist configurations chosen by its hash; the login channels take the shortest strings, the list and a
+	// hash sample of the carried ones. Big sub-spaces of the thorough tier (4-token, random) are carried at 1/64.
+	type item struct {
+		s      string
+		all    bool // under every whitelist configuration
+		login  bool
+		h      uint64
+	}
 	shortTok := env.Pick(2, 3)
 	nShort := c06CountUpTo(len(c06Tokens), shortTok)
+	nLoginShort := c06CountUpTo(len(c06Tokens), 2)
 	seen := map[string]bool{}
-	var cheapSet, loginSet []string
-	var nKept, nOff, nBigDropped int64
+	var items []item
+	var nKept, nOff, nBigDropped, nLogin int64
 	for i := 0; i < u.total; i++ {
 		s, big := u.At(i)
-		short := i < nShort || i >= u.total-len(u.known) // short enumerated strings and the repository's list always go everywhere
+		isKnown := i >= u.total-len(u.known)
+		short := i < nShort || isKnown
 		if flags[i]&1 != 0 {
 			nKept++
 		}
@@ -163,47 +184,56 @@ func c06Bulk(t testing.TB, env vfEnvT, workers int) *c06BulkResult {
 			continue
 		}
 		seen[s] = true
-		cheapSet = append(cheapSet, s)
-		// login channels: everything dangerous, the short strings, and a sample of the strings that are merely kept
-		if short && i < c06CountUpTo(len(c06Tokens), 2) || i >= u.total-len(u.known) || flags[i]&2 != 0 || c06Hash(s)%uint64(env.Pick(8, 4)) == 0 {
-			loginSet = append(loginSet, s)
+		h := c06Hash(s)
+		it := item{s: s, all: short, h: h}
+		it.login = i < nLoginShort || isKnown || (h>>20)%uint64(env.Pick(8, 4)) == 0
+		if it.login {
+			nLogin++
 		}
+		items = append(items, it)
 	}
 	res.Stats["phase1_kept_under_some_whitelist"] = nKept
 	res.Stats["phase1_off_origin_if_echoed"] = nOff
 	res.Stats["carried_sampled_out_(1/64_of_big_subspaces_kept)"] = nBigDropped
-	res.Stats["phase2_strings_cheap_channels"] = int64(len(cheapSet))
-	res.Stats["phase2_strings_login_channels"] = int64(len(loginSet))
-	for _, s := range cheapSet {
-		if h := c06Hash(s + "w"); h%uint64(1+len(cheapSet)/1500) == 0 {
-			res.Interesting = append(res.Interesting, s)
+	res.Stats["phase2_strings_cheap_channels"] = int64(len(items))
+	res.Stats["phase2_strings_login_channels"] = nLogin
+	for _, it := range items {
+		if c06Hash(it.s+"w")%uint64(1+len(items)/1500) == 0 {
+			res.Interesting = append(res.Interesting, it.s)
 		}
 	}
 	// ---- phase 2
-	inLogin := map[string]bool{}
-	for _, s := range loginSet {
-		inLogin[s] = true
-	}
-	const block = 6000 // strings per login world (the fake IdP logs every login; worlds are discarded to bound memory)
-	for _, cx := range ctxs {
-		for lo := 0; lo < len(cheapSet); lo += block {
+	const block = 8000 // strings per login world (the fake IdP logs every login; worlds are discarded to bound memory)
+	var pairs int64
+	for wi, cx := range ctxs {
+		var sel []item
+		for _, it := range items {
+			// carried strings: 2 (quick) / 3 (thorough) consecutive configurations starting at a hash-chosen one
+			d := (wi - int(it.h%uint64(len(ctxs))) + len(ctxs)) % len(ctxs)
+			if it.all || d < env.Pick(2, 3) || len(ctxs) < 3 {
+				sel = append(sel, it)
+			}
+		}
+		pairs += int64(len(sel))
+		for lo := 0; lo < len(sel); lo += block {
 			hi := lo + block
-			if hi > len(cheapSet) {
-				hi = len(cheapSet)
+			if hi > len(sel) {
+				hi = len(sel)
 			}
 			if err := cx.Rotate(t); err != nil {
 				t.Fatalf("c06: building login instances for whitelist %v: %v", cx.WL.Entries, err)
 			}
-			c06Chunks(hi-lo, 128, workers, func(a, b int) {
+			part := sel[lo:hi]
+			c06Chunks(len(part), 64, workers, func(a, b int) {
 				loc := c06NewAcc()
 				st := &c06State{}
-				for _, s := range cheapSet[lo+a : lo+b] {
+				for _, it := range part[a:b] {
 					for _, ch := range c06CheapChannels[1:] { // so-rd was phase 1
-						cx.drive(loc, ch, s, st)
+						cx.drive(loc, ch, it.s, st)
 					}
-					if inLogin[s] {
+					if it.login {
 						for _, ch := range c06LoginChannels {
-							cx.drive(loc, ch, s, st)
+							cx.drive(loc, ch, it.s, st)
 						}
 					}
 				}
@@ -212,6 +242,7 @@ func c06Bulk(t testing.TB, env vfEnvT, workers int) *c06BulkResult {
 		}
 		cx.Close()
 	}
+	res.Stats["phase2_string_x_whitelist_pairs"] = pairs
 	res.Stats["wall_ms_phase2"] = time.Since(t0).Milliseconds()
 	return res
 }
@@ -299,7 +330,7 @@ func TestVerif_C06(t *testing.T) {
 			t.Fail()
 		}
 	}
-	run.Finish(int64(run.Env.Pick(600000, 8000000)), run.Env.Pick(1500, 3000))
+	run.Finish(int64(run.Env.Pick(800000, 12000000)), run.Env.Pick(10000, 20000))
 }
 
 // c06RacePass: all channels under the race build for the 1-token strings, the prefixes and a sample of the known-bad list,
@@ -330,7 +361,7 @@ func c06RacePass(run *vfRun, w0 *vfWorld, interesting []string) {
 	acc := c06NewAcc()
 	var wireN, wireDiff int64
 	for wi, wl := range c06WLs {
-		if !run.Env.Thorough() && wi%2 == 1 { // quick: none, dot, port, ipv6
+		if !run.Env.Thorough() && (wi+int(run.Env.Seed))%7%3 != 0 { // quick: three of the seven configurations, rotating with the seed
 			continue
 		}
 		cx, err := c06NewCtx(w0, wl)
@@ -396,13 +427,25 @@ func (cx *c06Ctx) wireCompare(a *c06Acc, in string) (n, diff int64) {
 		reqs = append(reqs, wreq{"page-403", cx.H, cx.BaseA, vfGET(in)})
 	}
 	for _, r := range reqs {
+		if (r.ch == "so-xarr" || r.ch == "xf-so") && !c06HeaderDeliverable(in) {
+			continue
+		}
 		d := r.p.Do(r.req)
 		if d.Invalid != "" {
 			continue
 		}
 		wr := r.p.Wire(r.req)
 		if wr.Err != "" {
+			// Go's client refuses a response whose header value carries a control character; net/http's server sends such
+			// a Location verbatim (only CR/LF are replaced). The bytes are those of the direct driver: judge them.
+			if dl := d.Location(); !c06HeaderDeliverable(dl) {
+				n++
+				a.count("wire_response_unparsable_by_client(control character in Location; direct bytes judged)", 1)
+				cx.judge(a, "wire:"+r.ch, in, r.base, r.p, d, r.req)
+				continue
+			}
 			a.count("wire_errors", 1)
+			a.count("wire_error["+r.ch+"] "+vfTrunc(strconv.QuoteToASCII(wr.Err), 160), 1)
 			continue
 		}
 		n++
